@@ -244,7 +244,7 @@ class QR {
 
         // Returns element of the matrix R.
         value_type R(int i, int j) const {
-            if (j < i) return math::zero<value_type>();
+            if (j < i || i >= m) return math::zero<value_type>();
             return r[i*row_stride + j*col_stride];
         }
 
